@@ -92,6 +92,12 @@ def make_case(idx):
         fname = 'f1'
         targets = [1, 2, cols - 1, cols, cols + 1, cols + cols // 2, 2 * cols, 2 * cols + 1, 3 * cols]
         prog = [R.choice(['%d|' % R.choice(targets), '$', '0', 'l', 'h', '3l', '3h', 'j', 'k', 'w', 'b']) for _ in range(R.randint(1, 8))]
+    if not horiz and not rtl and R.random() < 0.06:
+        # a second buffer with unsaved changes: :wq / :x / :q are refused and switch to it - the window must show it
+        prog = prog[:R.randint(0, 4)] + [R.choice(['x', 'dd', 'ix\x1b', 'J']), ':e! f2\n'] + prog[4:R.randint(4, 8)] + [R.choice([':wq\n', ':x\n', ':q\n', ':wq\n'])] + prog[8:11]
+    if not horiz and not rtl and R.random() < 0.06 and len(lines) > rows:
+        # insert mode on the bottom row: help key (^A), then Enter scrolls the window from within the insert
+        prog = prog[:R.randint(0, 5)] + [R.choice(['LAX\x01\nY\x1b', 'Go\x01a\nb\x1b', 'LoZ\x01\n\nW\x1b', 'LA\x01\x01\nq\x1b'])] + prog[5:8]
     raw = R.random() < 0.12 or rtl
     if horiz and R.random() < 0.7:
         # (the per-command normalisation is itself a motion and re-centres the view: most of this family runs without it and ends in a jump)
@@ -182,7 +188,7 @@ def run_case(args):
         for k in case['prog']:
             keys += k.encode() + b'\x1b' + NORM + b'\x0c\x0c'
             prefixes.append(keys)
-    files = {case['fname']: gen.buf_bytes(case['lines'])}
+    files = {case['fname']: gen.buf_bytes(case['lines']), 'f2': b'second file\nits line 2\n\tthird\n'}
     r, d = common.run_vi(vi, keys, files=files, args=[case['fname']], timeout=90, lines=case['rows'], cols=case['cols'])
     common.rmcase(d)
     wit = {'index': idx, 'rows': case['rows'], 'cols': case['cols'], 'lines': case['lines'], 'program': case['prog'], 'pre': case['pre']}
